@@ -84,7 +84,10 @@ def make_script(rng):
         else:
             for _ in range(1 + rng.below(3)):
                 i = rng.below(n)
-                ops.append(("data", i, W.tx_datagram(vers[i] if rng.chance(9, 10) else 1 - vers[i], fn, rng.below(8), rng.choice([0, 5, 20, 40]), W.rand_burst(rng, rng.choice([148, 148, 444])))))
+                # mostly bursts for the frame about to be ticked; some for the next frame (they wait) and some for a frame already
+                # past (dropped as stale by their own transceiver - which must not disturb the routing of the others' bursts in that tick)
+                dfn = (fn + rng.choice([0, 0, 0, 0, 0, 0, 1, -2])) % W.H
+                ops.append(("data", i, W.tx_datagram(vers[i] if rng.chance(9, 10) else 1 - vers[i], dfn, rng.below(8), rng.choice([0, 5, 20, 40]), W.rand_burst(rng, rng.choice([148, 148, 444])))))
             ops.append(("state",))
             ops.append(("tick", fn))
             fn = (fn + rng.choice([1, 1, 1, 2])) % W.H
